@@ -45,6 +45,15 @@ def runeLen : Bytes → Nat
       | _ => 0
     else 0
 
+/-- `utf8.Valid` -/
+def validUtf8 : Nat → Bytes → Bool
+  | 0, b => b.isEmpty
+  | _, [] => true
+  | fuel+1, b :: r =>
+    match runeLen (b :: r) with
+    | 0 => false
+    | n => validUtf8 fuel ((b :: r).drop n)
+
 /-- JSON string body (without quotes) as Go's encoder writes it with `escapeHTML = true`. -/
 def escBody : Nat → Bytes → Bytes
   | 0, _ => []
